@@ -213,3 +213,47 @@ def field_copy_verdict(cfg, target, want_src, other_srcs):
     if good and all(must_pass(cfg, lambda n: n in good, start=t) for b in bad for t, l in cfg.succ[b.id] if l not in ("exc", "excp")):
         return "HOLDS", f"`{target}` <- `{want_src}` is the last store on every path"
     return "UNDECIDED", f"`{target}` is assigned from {sorted(vals)}: not recognised as a copy of `{want_src}`"
+
+
+def strip_not(test, truth=True):
+    """(test, truth) with leading `not`s folded into the polarity and negative comparison operators made positive."""
+    while isinstance(test, ast.UnaryOp) and isinstance(test.op, ast.Not):
+        test, truth = test.operand, not truth
+    if isinstance(test, ast.Compare) and len(test.ops) == 1 and isinstance(test.ops[0], (ast.IsNot, ast.NotEq, ast.NotIn)):
+        pos = {ast.IsNot: ast.Is, ast.NotEq: ast.Eq, ast.NotIn: ast.In}[type(test.ops[0])]
+        test = ast.copy_location(ast.Compare(left=test.left, ops=[pos()], comparators=test.comparators), test)
+        truth = not truth
+    return test, truth
+
+
+def guards(fn):
+    """id(stmt) -> [(test, truth), ...] of the enclosing `if`s (outermost first), polarity-normalised; every statement
+    of the function (not nested defs) has an entry.  Shape independent: `if not c: raise` and `if c: .. else: raise`
+    give the raise the same guard (c, False)."""
+    out = {}
+
+    def walk(stmts, conds):
+        for s in stmts:
+            out[id(s)] = list(conds)
+            if isinstance(s, ast.If):
+                t, v = strip_not(s.test)
+                walk(s.body, conds + [(t, v)])
+                walk(s.orelse, conds + [(t, not v)])
+            elif isinstance(s, (ast.For, ast.While, ast.With)):
+                walk(s.body, conds)
+                walk(getattr(s, "orelse", []), conds)
+            elif isinstance(s, ast.Try):
+                walk(s.body, conds)
+                for h in s.handlers:
+                    walk(h.body, conds)
+                walk(s.orelse, conds)
+                walk(s.finalbody, conds)
+    walk(fn.body if not isinstance(fn, list) else fn, [])
+    return out
+
+
+def deep_stmts(node, kinds=None):
+    """statements at any depth (not nested defs), in source order"""
+    out = [n for n in walk_no_nested(node) if isinstance(n, ast.stmt) and n is not node and (kinds is None or isinstance(n, kinds))]
+    out.sort(key=lambda n: (getattr(n, "lineno", 0), getattr(n, "col_offset", 0)))
+    return out
